@@ -166,15 +166,15 @@ type destructiveSite struct {
 }
 
 var destructiveAllowed = map[string]string{
-	"config.Manifest.Save|os.Rename":                               "manifest temp+rename",
-	"config.Config.SaveManifest|os.Rename":                         "manifest temp+rename",
-	"wal.WAL.ManageRetention|os.Remove":                            "WAL retention (never the current file; guard checked by C12/retention-spares-current-log)",
+	"config.Manifest.Save|os.Rename":                                      "manifest temp+rename",
+	"config.Config.SaveManifest|os.Rename":                                "manifest temp+rename",
+	"wal.WAL.ManageRetention|os.Remove":                                   "WAL retention (never the current file; guard checked by C12/retention-spares-current-log)",
 	"compaction.DefaultCompactionExecutor.DeleteCompactedFiles|os.Remove": "compaction input deletion (callers checked by C12/inputs-outlive-outputs)",
-	"compaction.DefaultFileTracker.CleanupObsoleteFiles|os.Remove":  "obsolete compaction inputs (pending files skipped)",
-	"sstable.OpenReader|os.Remove":                                 "bloom filter temp file",
-	"sstable.FileManager.FinalizeFile|os.Rename":                   "atomic publication of a table",
-	"sstable.FileManager.Cleanup|os.Remove":                        "aborted table temp file",
-	"sstable.BlockBloomFilterBuilder.Serialize|os.Remove":          "bloom filter temp file",
+	"compaction.DefaultFileTracker.CleanupObsoleteFiles|os.Remove":        "obsolete compaction inputs (pending files skipped)",
+	"sstable.OpenReader|os.Remove":                                        "bloom filter temp file",
+	"sstable.FileManager.FinalizeFile|os.Rename":                          "atomic publication of a table",
+	"sstable.FileManager.Cleanup|os.Remove":                               "aborted table temp file",
+	"sstable.BlockBloomFilterBuilder.Serialize|os.Remove":                 "bloom filter temp file",
 }
 
 func ruleDestructiveOps(c *Ctx, r *Reporter) {
